@@ -153,8 +153,9 @@ private:
 
   std::uint64_t _queue_size;
   std::size_t _k;
-  // all operations on head/tail are synchronized via the value operations and
-  // can therefore use memory_order_relaxed.
+  // The algorithm relies on a single total order of all operations on head, tail and the entries (a consumer
+  // that finds the head segment empty may only move the head if no producer can have stored a value there
+  // unnoticed, and vice versa), so all of them use memory_order_seq_cst.
   std::atomic<marked_idx> _head;
   std::atomic<marked_idx> _tail;
   std::unique_ptr<entry[]> _queue;
@@ -183,22 +184,22 @@ bool kirsch_bounded_kfifo_queue<T, Policies...>::try_push(value_type value) {
 
   raw_value_type raw_value = traits::get_raw(value);
   for (;;) {
-    marked_idx tail_old = _tail.load(std::memory_order_relaxed);
-    marked_idx head_old = _head.load(std::memory_order_relaxed);
+    marked_idx tail_old = _tail.load(std::memory_order_seq_cst);
+    marked_idx head_old = _head.load(std::memory_order_seq_cst);
 
     uint64_t idx;
     marked_value old_value;
     bool found_idx = find_index<true>(tail_old.get(), idx, old_value);
-    if (tail_old != _tail.load(std::memory_order_relaxed)) {
+    if (tail_old != _tail.load(std::memory_order_seq_cst)) {
       continue;
     }
 
     if (found_idx) {
       assert(old_value.get() == nullptr);
       const marked_value new_value(raw_value, old_value.mark() + 1);
-      // (1) - this release-CAS synchronizes with the acquire-load (3, 4)
+      // (1) - this seq_cst-CAS synchronizes with the seq_cst-load (3, 4)
       if (_queue[idx].value.compare_exchange_strong(
-            old_value, new_value, std::memory_order_release, std::memory_order_relaxed) &&
+            old_value, new_value, std::memory_order_seq_cst, std::memory_order_seq_cst) &&
           committed(tail_old, new_value, idx)) {
         traits::release(value);
         return true;
@@ -208,7 +209,7 @@ bool kirsch_bounded_kfifo_queue<T, Policies...>::try_push(value_type value) {
         // The next segment is the head segment, so the tail must not be advanced unless the head moves
         // on first. If the head has changed in the meantime we have to start over.
         if (!segment_empty(head_old)) {
-          if (head_old == _head.load(std::memory_order_relaxed)) {
+          if (head_old == _head.load(std::memory_order_seq_cst)) {
             // queue is full
             return false;
           }
@@ -216,13 +217,13 @@ bool kirsch_bounded_kfifo_queue<T, Policies...>::try_push(value_type value) {
         }
         // increment head by k
         marked_idx new_head((head_old.get() + _k) % _queue_size, head_old.mark() + 1);
-        if (!_head.compare_exchange_strong(head_old, new_head, std::memory_order_relaxed)) {
+        if (!_head.compare_exchange_strong(head_old, new_head, std::memory_order_seq_cst)) {
           continue;
         }
       }
       // increment tail by k
       marked_idx new_tail((tail_old.get() + _k) % _queue_size, tail_old.mark() + 1);
-      _tail.compare_exchange_strong(tail_old, new_tail, std::memory_order_relaxed);
+      _tail.compare_exchange_strong(tail_old, new_tail, std::memory_order_seq_cst);
     }
   }
 }
@@ -247,13 +248,13 @@ template <class T, class... Policies>
 template <class SuccessFunc, class EmptyFunc>
 auto kirsch_bounded_kfifo_queue<T, Policies...>::do_pop(SuccessFunc successFunc, EmptyFunc emptyFunc) {
   for (;;) {
-    marked_idx head_old = _head.load(std::memory_order_relaxed);
-    marked_idx tail_old = _tail.load(std::memory_order_relaxed);
+    marked_idx head_old = _head.load(std::memory_order_seq_cst);
+    marked_idx tail_old = _tail.load(std::memory_order_seq_cst);
 
     uint64_t idx;
     marked_value old_value;
     bool found_idx = find_index<false>(head_old.get(), idx, old_value);
-    if (head_old != _head.load(std::memory_order_relaxed)) {
+    if (head_old != _head.load(std::memory_order_seq_cst)) {
       continue;
     }
 
@@ -261,21 +262,21 @@ auto kirsch_bounded_kfifo_queue<T, Policies...>::do_pop(SuccessFunc successFunc,
       assert(old_value.get() != nullptr);
       if (head_old.get() == tail_old.get()) {
         marked_idx new_tail((tail_old.get() + _k) % _queue_size, tail_old.mark() + 1);
-        _tail.compare_exchange_strong(tail_old, new_tail, std::memory_order_relaxed);
+        _tail.compare_exchange_strong(tail_old, new_tail, std::memory_order_seq_cst);
       }
       marked_value new_value(nullptr, old_value.mark() + 1);
-      // (2) - this release-CAS synchronizes with the acquire-load (3, 4)
+      // (2) - this seq_cst-CAS synchronizes with the seq_cst-load (3, 4)
       if (_queue[idx].value.compare_exchange_strong(
-            old_value, new_value, std::memory_order_release, std::memory_order_relaxed)) {
+            old_value, new_value, std::memory_order_seq_cst, std::memory_order_seq_cst)) {
         return successFunc(old_value);
       }
     } else {
-      if (head_old.get() == tail_old.get() && tail_old == _tail.load(std::memory_order_relaxed)) {
+      if (head_old.get() == tail_old.get() && tail_old == _tail.load(std::memory_order_seq_cst)) {
         return emptyFunc();
       }
 
       marked_idx new_head((head_old.get() + _k) % _queue_size, head_old.mark() + 1);
-      _head.compare_exchange_strong(head_old, new_head, std::memory_order_relaxed);
+      _head.compare_exchange_strong(head_old, new_head, std::memory_order_seq_cst);
     }
   }
 }
@@ -289,8 +290,8 @@ bool kirsch_bounded_kfifo_queue<T, Policies...>::find_index(uint64_t start_index
   for (size_t i = 0; i < _k; i++) {
     // TODO - this can be simplified if queue_size is a multiple of k!
     uint64_t index = (start_index + ((random_index + i) % _k)) % _queue_size;
-    // (3) - this acquire-load synchronizes-with the release-CAS (1, 2)
-    old = _queue[index].value.load(std::memory_order_acquire);
+    // (3) - this seq_cst-load synchronizes-with the seq_cst-CAS (1, 2)
+    old = _queue[index].value.load(std::memory_order_seq_cst);
     if ((Empty && old.get() == nullptr) || (!Empty && old.get() != nullptr)) {
       value_index = index;
       return true;
@@ -303,29 +304,29 @@ template <class T, class... Policies>
 bool kirsch_bounded_kfifo_queue<T, Policies...>::committed(const marked_idx& tail_old,
                                                            marked_value value,
                                                            uint64_t index) {
-  if (_queue[index].value.load(std::memory_order_relaxed) != value) {
+  if (_queue[index].value.load(std::memory_order_seq_cst) != value) {
     return true;
   }
 
-  marked_idx tail_current = _tail.load(std::memory_order_relaxed);
-  marked_idx head_current = _head.load(std::memory_order_relaxed);
+  marked_idx tail_current = _tail.load(std::memory_order_seq_cst);
+  marked_idx head_current = _head.load(std::memory_order_seq_cst);
   if (in_valid_region(tail_old.get(), tail_current.get(), head_current.get())) {
     return true;
   }
 
   if (not_in_valid_region(tail_old.get(), tail_current.get(), head_current.get())) {
     marked_value new_value(nullptr, value.mark() + 1);
-    if (!_queue[index].value.compare_exchange_strong(value, new_value, std::memory_order_relaxed)) {
+    if (!_queue[index].value.compare_exchange_strong(value, new_value, std::memory_order_seq_cst)) {
       return true;
     }
   } else {
     marked_idx new_head(head_current.get(), head_current.mark() + 1);
-    if (_head.compare_exchange_strong(head_current, new_head, std::memory_order_relaxed)) {
+    if (_head.compare_exchange_strong(head_current, new_head, std::memory_order_seq_cst)) {
       return true;
     }
 
     marked_value new_value(nullptr, value.mark() + 1);
-    if (!_queue[index].value.compare_exchange_strong(value, new_value, std::memory_order_relaxed)) {
+    if (!_queue[index].value.compare_exchange_strong(value, new_value, std::memory_order_seq_cst)) {
       return true;
     }
   }
@@ -336,7 +337,7 @@ template <class T, class... Policies>
 bool kirsch_bounded_kfifo_queue<T, Policies...>::queue_full(const marked_idx& head_old,
                                                             const marked_idx& tail_old) const {
   return (((tail_old.get() + _k) % _queue_size) == head_old.get() &&
-          (head_old == _head.load(std::memory_order_relaxed)));
+          (head_old == _head.load(std::memory_order_seq_cst)));
 }
 
 template <class T, class... Policies>
@@ -344,8 +345,8 @@ bool kirsch_bounded_kfifo_queue<T, Policies...>::segment_empty(const marked_idx&
   const uint64_t start = head_old.get();
   for (size_t i = 0; i < _k; i++) {
     // TODO - this can be simplified if queue_size is a multiple of k!
-    // (4) - this acquire-load synchronizes-with the release-CAS (1, 2)
-    if (_queue[(start + i) % _queue_size].value.load(std::memory_order_acquire).get() != nullptr) {
+    // (4) - this seq_cst-load synchronizes-with the seq_cst-CAS (1, 2)
+    if (_queue[(start + i) % _queue_size].value.load(std::memory_order_seq_cst).get() != nullptr) {
       return false;
     }
   }
